@@ -102,6 +102,22 @@ type verifBbr struct {
 	maxSlots   int
 	maxA0      int
 	sim        *bbrSim
+	// reporting discipline: the first failing call of a trace is reported (with its history as
+	// the replay); later calls of the same trace are a consequence.  At most 25 per run.
+	traceFailed bool
+	reported    int
+}
+
+func (c *verifBbr) limit(orc []string) []string {
+	if len(orc) == 0 {
+		return nil
+	}
+	if c.traceFailed || c.reported >= 25 {
+		return nil
+	}
+	c.traceFailed = true
+	c.reported++
+	return orc
 }
 
 func NewVerifBbr() vh.Component { return &verifBbr{clk: &vClock{}, rtt: &vRTT{}} }
@@ -244,7 +260,7 @@ func (c *verifBbr) Run(op string) vh.Result {
 	case "note":
 		return vh.Result{Out: "note"}
 	case "stall":
-		return vh.Result{Out: "note", Oracle: []string{"simulated connection cannot make progress: " + strings.Join(f[1:], " ")}}
+		return vh.Result{Out: "note", Oracle: c.limit([]string{"simulated connection cannot make progress: " + strings.Join(f[1:], " ")})}
 	case "new":
 		if len(f) != 6 {
 			return vh.Result{Out: "bad-op"}
@@ -273,8 +289,9 @@ func (c *verifBbr) Run(op string) vh.Result {
 			return vh.Result{Out: "panic", Oracle: []string{"NewBbrSender panicked: " + msg}}
 		}
 		c.mds, c.maxPnSent, c.haveEvent, c.maxSlots, c.maxA0 = mds, -1, false, 0, 0
+		c.traceFailed = false
 		c.oracles(fail)
-		return vh.Result{Out: "ok " + c.state(), ModelOp: fmt.Sprintf("new %s %d %d", f[1], mds, c.bps()), Oracle: orc}
+		return vh.Result{Out: "ok " + c.state(), ModelOp: fmt.Sprintf("new %s %d %d", f[1], mds, c.bps()), Oracle: c.limit(orc)}
 	}
 	if c.b == nil {
 		return vh.Result{Out: "bad-op"}
@@ -304,7 +321,7 @@ func (c *verifBbr) Run(op string) vh.Result {
 			c.maxPnSent = pn
 		}
 		c.oracles(fail)
-		return vh.Result{Out: "ok " + c.state(), ModelOp: fmt.Sprintf("sent %d %d %d", infl, pn, c.bps()), NonTrivial: true, Oracle: orc}
+		return vh.Result{Out: "ok " + c.state(), ModelOp: fmt.Sprintf("sent %d %d %d", infl, pn, c.bps()), NonTrivial: true, Oracle: c.limit(orc)}
 	case "mds":
 		n, e1 := strconv.ParseInt(f[1], 10, 64)
 		if e1 != nil {
@@ -315,11 +332,11 @@ func (c *verifBbr) Run(op string) vh.Result {
 			if n >= c.mds {
 				fail("SetMaxDatagramSize(%d) panicked although the size did not decrease (was %d): %s", n, c.mds, msg)
 			}
-			return vh.Result{Out: "panic", ModelOp: fmt.Sprintf("mds %d 0", n), Oracle: orc}
+			return vh.Result{Out: "panic", ModelOp: fmt.Sprintf("mds %d 0", n), Oracle: c.limit(orc)}
 		}
 		c.mds = n
 		c.oracles(fail)
-		return vh.Result{Out: "ok " + c.state(), ModelOp: fmt.Sprintf("mds %d %d", n, c.bps()), NonTrivial: true, Oracle: orc}
+		return vh.Result{Out: "ok " + c.state(), ModelOp: fmt.Sprintf("mds %d %d", n, c.bps()), NonTrivial: true, Oracle: c.limit(orc)}
 	case "ev":
 		if len(f) != 6 {
 			return vh.Result{Out: "bad-op"}
@@ -403,7 +420,7 @@ func (c *verifBbr) Run(op string) vh.Result {
 			int64(b.getTargetCongestionWindow(b.congestionWindowGain)),
 			uint64(growthTarget), int64(lossThresh), uint64(targetRate), rnd, c.bps())
 		if out == "panic" {
-			return vh.Result{Out: "panic", ModelOp: mop, Oracle: orc}
+			return vh.Result{Out: "panic", ModelOp: mop, Oracle: c.limit(orc)}
 		}
 		// leastUnacked as the sender derives it (bbr_sender.go:626-632)
 		if len(apn) != 0 {
@@ -413,7 +430,7 @@ func (c *verifBbr) Run(op string) vh.Result {
 		}
 		c.haveEvent = true
 		c.oracles(fail)
-		return vh.Result{Out: fmt.Sprintf("ok %s %d", c.state(), c.leastUnack), ModelOp: mop, NonTrivial: true, Oracle: orc}
+		return vh.Result{Out: fmt.Sprintf("ok %s %d", c.state(), c.leastUnack), ModelOp: mop, NonTrivial: true, Oracle: c.limit(orc)}
 	}
 	return vh.Result{Out: "bad-op"}
 }
